@@ -71,10 +71,10 @@ def _context(path, lineno):
     return ctxrec, rec
 
 
-def _run_vcsg(ctx, name, args):
+def _run_vcsg(ctx, name, args, tail=()):
+    """Run the harness; args then the output path then `tail` (the fixture file list)."""
     out = ctx.path(name + ".ndjson")
-    r = vlib.run_harness("vcsg", [str(a) for a in args[:]] + [out] + ctx_extra.get(name, []), timeout=1500,
-                         check=False)
+    r = vlib.run_harness("vcsg", [str(a) for a in args] + [out] + list(tail), timeout=1500, check=False)
     if r.returncode != 0:
         # a crash / abort of the code under test is an observed event: the trace ends with an
         # Abort record, which no spec action explains
@@ -82,9 +82,6 @@ def _run_vcsg(ctx, name, args):
             fh.write(json.dumps({"e": "Abort", "what": "vcsg exit code %d" % r.returncode,
                                  "stderr": (r.stderr or "")[-300:]}) + "\n")
     return out
-
-
-ctx_extra = {}
 
 
 def run(ctx):
@@ -109,7 +106,6 @@ def run(ctx):
             jobs.append(("exh%d" % k, ["exh", ns, depth, split, nsh, k], "exh"))
         for k in range(nrand_shards):
             jobs.append(("rand%d" % k, ["rand", ctx.seed + 7919 * k, nprog, 10, 60], "rand"))
-        ctx_extra["fix"] = fixtures
         jobs.append(("fix", ["fix", ctx.seed], "fix"))
 
     # ---------------------------------------------------------------- harness runs
@@ -118,7 +114,7 @@ def run(ctx):
         if kind == "replay":
             traces[name] = ctx.replay
         else:
-            traces[name] = _run_vcsg(ctx, name, args)
+            traces[name] = _run_vcsg(ctx, name, args, fixtures if kind == "fix" else ())
         if kind == "exh":
             with open(traces[name]) as fh:
                 head = json.loads(fh.readline())
